@@ -211,6 +211,32 @@ class C07(Check):
                         _, o, sz, _ = m[3:].split(':')
                         m = 'ok ' + file_bytes[case['start'] + 0x200 + int(o):case['start'] + 0x200 + int(o) + int(sz)].hex()
                     models.append(m)
+            # decompress_code() on whatever '.code' holds (mostly not a valid LZSS image: the call raises): a call that FAILS must leave
+            # the reader as it was - the same names, and '.code-decompressed' not found; a call that succeeds adds exactly that name
+            if wf and '.code' in by_name:
+                names_before = [n for n in rd.entries]
+                try:
+                    rd.decompress_code()
+                    tok = 'dec:ok'
+                except Exception as e:  # noqa
+                    tok = 'dec:e:' + exc_name(e)
+                names_after = [n for n in rd.entries]
+                info['decompress_code ' + ('raised' if tok != 'dec:ok' else 'succeeded')] = 1
+                if tok != 'dec:ok':
+                    if names_after != names_before:
+                        mon.append(f'decompress_code() raised {tok[6:]} and left the entries {names_after} (before: {names_before})')
+                        key = 'exefs.entries'
+                    try:
+                        rd.open('.code-decompressed').close()
+                        mon.append('open(\'.code-decompressed\') succeeded after decompress_code() had raised: no such entry is stored')
+                        key = 'exefs.missing'
+                    except Exception as e:  # noqa
+                        if exc_name(e) != 'ExeFSFileNotFoundError':
+                            mon.append(f'open(\'.code-decompressed\') raised {exc_name(e)} instead of the not-found error')
+                            key = 'exefs.missing'
+                elif names_after != names_before + ['.code-decompressed'] and names_after != names_before:
+                    mon.append(f'decompress_code() succeeded and left the entries {names_after}')
+                    key = 'exefs.entries'
             # names that are not stored
             for _ in range(3):
                 probe = gen_name(rng).decode('ascii')
